@@ -79,6 +79,12 @@ Definition justify (rj : bool) (w : Z) (d : list Z) : list Z :=
 Definition buf_set (off w : Z) (rj : bool) (d buf : list Z) : list Z :=
   ztake off buf ++ justify rj w d ++ zdrop (off + w) buf.
 
+(* LOF() and LOC() return Single.from_int(n): exact below 2^24, above that cut to 24 significant bits *)
+Definition single_trunc (x : Z) : Z :=
+  let a := Z.abs x in
+  let k := Z.log2 a - 23 in
+  if k <=? 0 then x else Z.sgn x * Z.shiftl (Z.shiftr a k) k.
+
 (* ---- one file number: the file on disk (kept while closed), the open handle, the FIELD buffer *)
 Definition field_size : Z := 128.       (* Field(max_reclen): the buffer does not depend on LEN= *)
 Record fstate := mkFS { fs_disk : list Z; fs_open : option rfile; fs_buf : list Z }.
@@ -173,7 +179,7 @@ Definition wstep (w : world) (o : wop) : world * res (list Z) :=
       | Some x =>
           match fs_open x with
           | None => (w, Err locks_err_BAD_FILE_NUMBER)
-          | Some f => (w, Ok [rf_lof f; rf_loc f; if rf_iseof f then -1 else 0])
+          | Some f => (w, Ok [single_trunc (rf_lof f); single_trunc (rf_loc f); if rf_iseof f then -1 else 0])
           end
       end
   end.
